@@ -71,6 +71,25 @@ Theorem cylinder_in_iff cx cy cz r h x y z :
   sq (x - cx) + sq (y - cy) <= sq r /\ cz - h / q 2 1 <= z /\ z <= cz + h / q 2 1.
 Proof. unfold cylinder_in. rewrite !andb_true_iff, !Qcleb_iff. tauto. Qed.
 
+(* the other two axes: the same closed solid with the coordinates exchanged (closed caps, closed lateral surface) *)
+Theorem cylinder_in_iff_Y cx cy cz r h x y z :
+  cylinder_in cx cy cz r h AxY (x, y, z) = true <->
+  sq (x - cx) + sq (z - cz) <= sq r /\ cy - h / q 2 1 <= y /\ y <= cy + h / q 2 1.
+Proof. unfold cylinder_in. rewrite !andb_true_iff, !Qcleb_iff. tauto. Qed.
+
+Theorem cylinder_in_iff_X cx cy cz r h x y z :
+  cylinder_in cx cy cz r h AxX (x, y, z) = true <->
+  sq (y - cy) + sq (z - cz) <= sq r /\ cx - h / q 2 1 <= x /\ x <= cx + h / q 2 1.
+Proof. unfold cylinder_in. rewrite !andb_true_iff, !Qcleb_iff. tauto. Qed.
+
+Theorem cylinder_axes_exchange cx cy cz r h x y z :
+  cylinder_in cx cy cz r h AxY (x, y, z) = cylinder_in cx cz cy r h AxZ (x, z, y) /\
+  cylinder_in cx cy cz r h AxX (x, y, z) = cylinder_in cz cy cx r h AxZ (z, y, x).
+Proof.
+  unfold cylinder_in. split; [reflexivity|].
+  replace (sq (z - cz) + sq (y - cy)) with (sq (y - cy) + sq (z - cz)) by ring. reflexivity.
+Qed.
+
 (* ---- grid coordinates ---- *)
 Theorem grid_ravel_coords side idx : (0 < side)%nat -> grid_ravel side (grid_coords side idx) = idx.
 Proof.
